@@ -45,6 +45,21 @@ ALLOW = {
 OK_CATEGORIES = {"type-check", "arg-range", "junction-check", "count-division"}
 
 
+def _allow_key(ctx, q, cat, depth=0):
+    """the allow entry that covers a failure site: the named function itself, or a private helper of the same class all
+    of whose callers are covered (the same statement moved into `_unpack_coordinates` is the same statement)"""
+    if (q, cat) in ALLOW:
+        return (q, cat)
+    fn = ctx.model.funcs.get(q)
+    if fn is None or depth > 2 or not (fn.name.startswith("_") and not fn.name.endswith("__")):
+        return None
+    callers = [c for c in ctx.model.funcs if q in ctx.graph.callees(c) and c != q]
+    keys = {_allow_key(ctx, c, cat, depth + 1) for c in callers}
+    if callers and len(keys) == 1 and None not in keys and all(ctx.model.funcs[c].cls == fn.cls for c in callers):
+        return next(iter(keys))
+    return None
+
+
 def _leaves(test):
     if isinstance(test, ast.BoolOp):
         out = []
@@ -241,8 +256,8 @@ def r07_1(ctx):
         cond = U(f.cond)[:60] if f.cond is not None else ""
         if cat in OK_CATEGORIES:
             out.ok(f.q, f"{f.exc} ({cat}) `{cond}` holds by construction", where=fn.where(f.node), nontrivial=True)
-        elif (f.q, cat) in ALLOW:
-            out.ok(f.q, f"{f.exc} ({cat}) `{cond}`: {ALLOW[(f.q, cat)]}", where=fn.where(f.node))
+        elif _allow_key(ctx, f.q, cat) is not None:
+            out.ok(f.q, f"{f.exc} ({cat}) `{cond}`: {ALLOW[_allow_key(ctx, f.q, cat)]}", where=fn.where(f.node))
         else:
             what = {"degree-compare": "degree assertion escapes to ==",
                     "data-division": "division by a computed geometric quantity can raise ZeroDivisionError inside ==",
@@ -483,9 +498,10 @@ class SgE(StandIn):
 
 
 class CvE(StandIn):
-    def __init__(self, segs, on_other=True):
+    def __init__(self, segs, on_other=True, cleaned=None):
         self.segments = tuple(SgE(s) for s in segs)
         self.on_other = on_other
+        self._raw, self._cleaned = segs, cleaned
 
     @property
     def vertices(self):
@@ -504,9 +520,11 @@ class CvE(StandIn):
         return pt[1]
 
     def __copy__(self):
-        return self
+        return self if self._cleaned is None else CvE(self._raw, self.on_other, self._cleaned)
 
     def clean(self):
+        if self._cleaned is not None:           # redundant vertices are united away, in place
+            self.segments = tuple(SgE(s) for s in self._cleaned)
         return self
 
 
@@ -525,6 +543,33 @@ def r07_8(ctx):
         "a sample point of other is off self": (base, base, False, False),
         "reversed orientation": (base, [tuple(reversed(s)) for s in reversed(base)], True, False),
     }
+    # the same square with one redundant vertex each, on different edges: as many segments, equal only once cleaned
+    sq = [("A", "B"), ("B", "C"), ("C", "D"), ("D", "A")]
+    cut_ab = [("A", "M"), ("M", "B"), ("B", "C"), ("C", "D"), ("D", "A")]
+    cut_cd = [("A", "B"), ("B", "C"), ("C", "N"), ("N", "D"), ("D", "A")]
+    redundant = {
+        "same square, redundant vertices on different edges": (cut_ab, sq, cut_cd, sq, True),
+        "same square, a redundant vertex on one of them only": (cut_ab, sq, sq, sq, True),
+        "different squares with a redundant vertex each": (cut_ab, sq, [("A", "B"), ("B", "X"), ("X", "N"), ("N", "D"), ("D", "A")],
+                                                             [("A", "B"), ("B", "X"), ("X", "D"), ("D", "A")], False),
+    }
+    for label, (a, ca, b, cb, want) in redundant.items():
+        S, O = CvE(a, cleaned=ca), CvE(b, cleaned=cb)
+        try:
+            got = Runner(ctx, set(), lambda rn, ev, c, n, r, a_, k: True if n == "isinstance" else NotImplemented,
+                         asserts=True).call_fn(fn, [S, O])
+        except Undecided as ex:
+            out.undecided(fn.qname, f"{label}: {ex}", where=fn.where())
+            continue
+        except (Raised, IndexError, ValueError) as ex:
+            out.bad(fn.qname, f"== raises: {label}", where=fn.where(), detail=str(getattr(ex, "what", ex)))
+            continue
+        if got is not want:
+            out.bad(fn.qname, f"wrong answer: {label}", where=fn.where(), detail=f"returns {got!r}, required {want}")
+        elif [tuple(p.name for p in sg.ctrlpoints) for sg in S.segments] != [tuple(x) for x in a]:
+            out.bad(fn.qname, f"== cleans the operand itself, not a copy: {label}", where=fn.where())
+        else:
+            out.ok(fn.qname, f"{label} -> {want}", where=fn.where())
     for label, (a, b, on, want) in worlds.items():
         S, O = CvE(a), CvE(b, on_other=on)
         try:
@@ -566,4 +611,38 @@ def r07_10(ctx):
     return o
 
 
-RULES = [r07_1, r07_2, r07_4, r07_5, r07_6, r07_7, r07_8, r07_9, r07_10]
+def r07_11(ctx):
+    """abstract run (W) of PlanarCurve.__eq__ on stand-in segments with named control points: equal iff the same
+    control points in the same order -- in particular a segment never equals a segment of another degree whose leading
+    (or trailing) control points coincide with its own"""
+    out = Outcome("R07.11", "two segments are == iff they have the same control points in the same order (segments of "
+                            "different degree are never ==, whatever prefix they share)", floor=6)
+    fn = ctx.fn("curve.PlanarCurve.__eq__")
+
+    def seg(names):
+        return Obj("seg_" + "".join(names), ctrlpoints=tuple(PtE(n) for n in names), degree=len(names) - 1, npts=len(names))
+    cases = [("same points", "ABC", "ABC", True), ("one point differs", "ABC", "AXC", False), ("reversed", "ABC", "CBA", False),
+             ("line against a cubic that starts with its two points", "AB", "ABCD", False),
+             ("cubic against a line made of its first two points", "ABCD", "AB", False),
+             ("quadratic against a cubic with the same first three points", "ABC", "ABCD", False),
+             ("line against a quadratic that ends with its two points", "BC", "ABC", False), ("lines", "AB", "AB", True),
+             ("lines with swapped ends", "AB", "BA", False)]
+    for label, a, b, want in cases:
+        try:
+            got = Runner(ctx, set(), lambda rn, ev, c, n, r, a_, k: True if n == "isinstance" else NotImplemented,
+                         asserts=True).call_fn(fn, [seg(a), seg(b)])
+        except Undecided as ex:
+            out.undecided(fn.qname, f"{label}: {ex}", where=fn.where())
+            continue
+        except (Raised, IndexError, ValueError) as ex:
+            out.bad(fn.qname, f"== of two segments raises: {label}", where=fn.where(), detail=str(getattr(ex, "what", ex)))
+            continue
+        if bool(got) is not want or not isinstance(got, bool):
+            out.bad(fn.qname, f"wrong answer: {label}", where=fn.where(),
+                    detail=f"control points {a} == {b} gives {got!r}, required {want}")
+        else:
+            out.ok(fn.qname, f"{label}: {a} == {b} -> {want}", where=fn.where())
+    return out
+
+
+RULES = [r07_1, r07_2, r07_4, r07_5, r07_6, r07_7, r07_8, r07_9, r07_10, r07_11]
